@@ -4,9 +4,12 @@ import importlib, json, os, sys
 ROOT = os.path.dirname(os.path.dirname(os.path.abspath(__file__)))
 sys.path.insert(0, os.path.join(ROOT, "lib")); sys.path.insert(0, ROOT)
 checks = []
+CLAIMED = set(open(os.path.join(ROOT, 'tools', 'claimed.txt')).read().split())
 claimed = set()
 for f in sorted(os.listdir(os.path.join(ROOT, "checks"))):
     if not (f.startswith("c") and f.endswith(".py") and f[1:-3].isdigit()):
+        continue
+    if f[:-3].upper() not in CLAIMED:
         continue
     m = importlib.import_module("checks." + f[:-3])
     M = m.META
